@@ -2,7 +2,7 @@
    The executable specification is coq/VM/Model.v (step / run over unbounded Z with explicit 256-bit checks); the
    correspondence check compares the real VM with it.  Proved here: the specification's internal consistency.
    Statements only; every proof is [exact lemma]. *)
-From NG Require Import VM.Model VM.ArithProofs VM.ExecSpec VM.PriceSpec.
+From NG Require Import VM.Model VM.ArithProofs VM.ExecSpec VM.PriceSpec VM.Fresh.
 Open Scope Z_scope.
 
 (* every arithmetic primitive returns a value in [-2^255, 2^255) or FAULTs, for every operand *)
@@ -110,6 +110,39 @@ Theorem C13_run_fuel_irrelevant : forall n m s r,
   run n s = r -> (match r with Running _ => False | _ => True end) -> (n <= m)%nat -> run m s = r.
 Proof. exact run_fuel_irrelevant. Qed.
 Print Assumptions C13_run_fuel_irrelevant.
+
+(* results are fresh values.  Byte strings are values of the model (no storage to share); Buffers are the only mutable byte
+   storage (heap cells CBuf).  [bk x h h']: every Buffer of h other than the one at location x is unchanged in h'.
+   (1) every instruction except the three in-place mutators leaves every existing Buffer as it is;
+   (2) SETITEM, REVERSEITEMS, MEMCPY change at most one Buffer;
+   (3) NEWBUFFER, CAT, SUBSTR, LEFT, RIGHT push a Buffer at a location the heap did not have before the instruction, so no
+       other stack entry, slot or compound element refers to it: mutating the result in place changes no other value *)
+Theorem C13_results_keep_buffers : forall e op p d,
+  inplace_mutator op = false ->
+  match exec_data e op p d with
+  | DOk d' => bk None (d_heap d) (d_heap d') | DThrow _ d' => bk None (d_heap d) (d_heap d') | DFault => True end.
+Proof. exact exec_data_keeps_buffers. Qed.
+Print Assumptions C13_results_keep_buffers.
+Theorem C13_mutator_one_buffer : forall e op p d,
+  inplace_mutator op = true ->
+  match exec_data e op p d with
+  | DOk d' => exists x, bk x (d_heap d) (d_heap d') | DThrow _ d' => exists x, bk x (d_heap d) (d_heap d') | DFault => True end.
+Proof. exact mutator_one_buffer. Qed.
+Print Assumptions C13_mutator_one_buffer.
+Theorem C13_buffer_results_fresh : forall e op p d d',
+  buffer_producer op = true -> exec_data e op p d = DOk d' ->
+  exists l bs tl, d_es d' = IBuf l :: tl /\ hget (d_heap d') l = Some (CBuf bs) /\ (length (d_heap d) <= l)%nat.
+Proof. exact producer_fresh. Qed.
+Print Assumptions C13_buffer_results_fresh.
+(* PUSHDATA1 01020304 -> Buffer, DUP, PUSHDATA1 "" , CAT (empty right operand), DUP PUSH0 PUSHINT8 0x55 SETITEM, SWAP:
+   the result is changed, the operand is not *)
+Example C13_fresh_example :
+  match run 20 (init_state [12; 4; 1; 2; 3; 4; 219; 48; 74; 12; 0; 139; 74; 16; 0; 85; 208; 80] 1%N 1 100000) with
+  | Halted s => exists a b, final_stack s = [IBuf a; IBuf b] /\ hget (s_heap s) a = Some (CBuf [1; 2; 3; 4]) /\
+                            hget (s_heap s) b = Some (CBuf [85; 2; 3; 4])
+  | _ => False
+  end.
+Proof. vm_compute. eexists _, _. repeat split; reflexivity. Qed.
 
 (* slot initialisation: INITSLOT succeeds iff NEITHER the local NOR the argument slot of the executing context exists yet - one
    guard for the pair (INITSLOT 1,0 followed by INITSLOT 0,1 faults like a plain repetition) -, the counts are not both
